@@ -43,6 +43,24 @@ def _corrupt(evs):
     return out
 
 
+def _corrupt_diamond(evs):
+    out = []
+    for n, e in enumerate(evs):
+        if e["fn"] != "diamond" or not e["blocks"]:
+            continue
+        b = e["blocks"][n % len(e["blocks"])]
+        if n % 2 == 0:
+            b["reads"] = b["reads"] + [[(b["reads"][0][0] + 1) % 2, b["reads"][0][1], b["reads"][0][2]]] if b["reads"] else [[0, 0, 0]]
+        else:
+            e["left"] = [e["left"][0], [e["left"][1][1], e["left"][1][2], e["left"][1][0]]]      # another path: other blocks
+            if e["left"][1] == [1, 2, 3]:
+                continue
+        out.append(e)
+        if len(out) >= 30:
+            break
+    return out
+
+
 def plans(tier):
     return progcheck.standard_plans(tier) + [("d4-grid-contract", 4, 1), ("d2-blockfirst", 4 if tier == "quick" else 16, 1), ("d1-diamond", 2 if tier == "quick" else 8, 1)]
 
@@ -62,7 +80,13 @@ def run(chk):
         # wrong-axis variants are refuted)
         add_models(chk, ["Rewrites:sound-2d", "Rewrites:transpose-axis-mutant", "Rewrites:reduce-axis-mutant"]
                    + (["Rewrites:sound-3d"] if chk.tier != "quick" else []))
+        add_models(chk, ["Fusion:sound", "Fusion:forward-perm-mutant", "Fusion:forward-perm-2d-indistinguishable"])
         progcheck.run_plans(chk, rd, plans(chk.tier), OBS, opts={"no_compute": True}, selftest=_corrupt, accept_verdict=accept)
+        # Fusion.tla bound to the code: black-box block provenance of every diamond on the unit grid (one perturbed source
+        # block at a time) must be what the specification's block mapping through the transposes predicts
+        sub = progcheck.SubCheck(chk, "diamond-provenance")
+        progcheck.run_plans(sub, rd, [("d1-diamond", 16, 3 if chk.tier == "quick" else 1)], ("harness.obs_programs:obs_diamond",),
+                            opts={"no_compute": True, "only_unit_grids": True}, selftest=_corrupt_diamond, accept_verdict=accept)
         chk.cov["exhaustive"] = True
         chk.cov["rule"] = ("every collection of every enumerated behaviour of ArrayProgram.tla (corpora in parts) x chunk-grid variants: one "
                            "'phases' observation (5 forms vs the TLC-computed denotation), one 'rewrite' observation per distinct fired hook "
